@@ -1,5 +1,4 @@
--- imports JsonEqualGeneric_model.lean (Probe.JEqG)
-import Probe.JEqG
+import JsonEqualGeneric_model
 /-! C18, structural half, generic in the numbers: on texts whose objects have unique member names and whose
     numbers satisfy `P`, the model of `json.Equal` decides `Same R` (arrays pointwise, objects as unordered maps,
     numbers through `R`) whenever the number comparison decides `R` on `P`. -/
